@@ -904,7 +904,10 @@ def _apply_corruption(h5, c, d, touched, info):
             keys = [k for k in h5.attrs if k.startswith(sec + ":")]
             toks = [f"attr:{k}" for k in keys]
             if not keys or any(t in touched for t in toks) or \
+                    any(t.startswith(f"attr:{sec}:") for t in touched) or \
                     (sec == "experiment" and "len" in touched):
+                # (also when a key of this section was already deleted: the checker
+                # then reports the missing section, not the individual key)
                 return None
             touched.update(toks)
             touched.add(f"sec:{sec}")
